@@ -762,22 +762,43 @@ def desugar_match_str_literals(body, where, prov):
     return body[:toks[i][2]] + new + body[toks[c][3]:]
 
 
-def desugar_question_controlflow(body, where, prov):
+def desugar_question_controlflow(body, where, prov, hints=None):
     """class D: `E?` in a function returning ControlFlow<B, _> is
-       `match E { ControlFlow::Continue(c) => c, ControlFlow::Break(b) => return ControlFlow::Break(b) }` (impl Try for ControlFlow)."""
+       `match E { ControlFlow::Continue(c) => c, ControlFlow::Break(b) => return ControlFlow::Break(b) }` (impl Try for ControlFlow).
+       class A (optional, per site in source order): a ghost snapshot before the call (`pre`, must be `let ghost` statements) and a
+       proof hint in the Break arm before the return (`hint`, wrapped in `proof { }`); the Break value is `b_`."""
     n = 0
+    hints = {int(h["ordinal"]): h for h in (hints or [])}
+    used = set()
+    sites = []
     while True:
         toks = code_tokens(body)
         qs = [i for i, t in enumerate(toks) if t[0] == "punct" and t[1] == "?"]
         if not qs:
             break
         q = qs[-1]
+        ordinal = len(qs) - 1
         st = _operand_start(toks, q)
         expr = body[toks[st][2]:toks[q - 1][3]]
-        new = "match %s { ControlFlow::Continue(c_) => c_, ControlFlow::Break(b_) => return ControlFlow::Break(b_) }" % expr
+        h = hints.get(ordinal)
+        if h:
+            pre = h.get("pre", "").strip()
+            for stmt in [x.strip() for x in pre.split(";") if x.strip()]:
+                if not stmt.startswith("let ghost "):
+                    raise LostAnchor("%s: `pre` of a `?` hint must consist of `let ghost` statements" % where)
+            new = ("{ %s match %s { ControlFlow::Continue(c_) => c_, ControlFlow::Break(b_) => { proof { %s } return ControlFlow::Break(b_) } } }"
+                   % (pre, expr, h["hint"].strip()))
+            used.add(ordinal)
+        else:
+            new = "match %s { ControlFlow::Continue(c_) => c_, ControlFlow::Break(b_) => return ControlFlow::Break(b_) }" % expr
         body = body[:toks[st][2]] + new + body[toks[q][3]:]
+        sites.append("%d: %s" % (ordinal, re.sub(r"\s+", " ", expr)[:60]))
         n += 1
-    prov.append({"cls": "D", "what": "`?` on ControlFlow desugared to match/return at %d sites" % n})
+    if set(hints) - used:
+        raise LostAnchor("%s: `?` hint ordinals %s do not exist (%d sites)" % (where, sorted(set(hints) - used), n))
+    prov.append({"cls": "D", "what": "`?` on ControlFlow desugared to match/return at %d sites" % n, "sites": sites[::-1]})
+    if used:
+        prov.append({"cls": "A", "what": "ghost snapshot + proof hint in the Break arm of %d `?` sites" % len(used)})
     return body
 
 
@@ -1161,7 +1182,7 @@ class Unit:
                     spec = dict(spec)
                     spec["requires"] = [{"id": "G.layout_" + it.name, "text": " && ".join("(%s)" % c for c in grammar.layout_requires(dict(m, layout=[dict(e) for e in m["layout"]])))}] + list(spec.get("requires", []))
             if spec.get("contract_only"):
-                spec = {k: v for k, v in spec.items() if k not in ("lift", "fold_lift", "desugar_folds", "desugar_map_collect_sets", "desugar_iter_mut_chain", "desugar_for_each", "desugar_try_for_each", "desugar_question_controlflow", "desugar_match_str_literals", "desugar_iter_mut_for_each", "closure", "autofmt", "top", "loop")}
+                spec = {k: v for k, v in spec.items() if k not in ("lift", "fold_lift", "desugar_folds", "desugar_map_collect_sets", "desugar_iter_mut_chain", "desugar_for_each", "desugar_try_for_each", "desugar_question_controlflow", "question_hints", "desugar_match_str_literals", "desugar_iter_mut_for_each", "closure", "autofmt", "top", "loop")}
                 spec["edit"] = [e for e in spec.get("edit", []) if e.get("in") == "sig"]
             sig = apply_edits(sig, [e for e in spec.get("edit", []) if e.get("in") == "sig"], where, prov)
             body = apply_edits(body, [e for e in spec.get("edit", []) if e.get("in", "body") == "body"], where, prov)
@@ -1170,7 +1191,7 @@ class Unit:
             if spec.get("desugar_try_for_each"):
                 body = desugar_try_for_each(body, spec["desugar_try_for_each"], where, prov, spec.get("rename_bound"))
             if spec.get("desugar_question_controlflow"):
-                body = desugar_question_controlflow(body, where, prov)
+                body = desugar_question_controlflow(body, where, prov, spec.get("question_hints"))
             if spec.get("desugar_match_str_literals"):
                 body = desugar_match_str_literals(body, where, prov)
             if spec.get("desugar_for_each"):
